@@ -86,7 +86,14 @@ def main():
     except Exception:
         allres = {}
     with ThreadPoolExecutor(jobs) as ex:
-        for out in ex.map(lambda n: run_mutant(n, tier), names):
+        def safe(n):
+            try:
+                return run_mutant(n, tier)
+            except Exception as e:
+                return {"name": n, "desc": MUTANTS[n]["desc"], "results": {p: {"rc": -1, "killed": False, "wall_s": 0, "violations": 0,
+                                                                              "first": ["MUTANT DOES NOT APPLY: %s" % e], "stderr_tail": ""}
+                                                                          for p in MUTANTS[n]["props"]}}
+        for out in ex.map(safe, names):
             allres[out["name"]] = out
             for pid, r in out["results"].items():
                 print("%-40s %s %s rc=%d %.0fs %s" % (out["name"], pid, "KILLED  " if r["killed"] else "SURVIVED", r["rc"], r["wall_s"],
